@@ -51,16 +51,15 @@ def run(chk: core.Check):
             continue
         sc = rec["scenario"]
         interrupted = "Stop" in sc["schedule"]
-        defect = U.stream_wf(rec["events"], interrupted)
-        if defect is not None:
+        for defect in U.stream_defects(rec["events"], interrupted):      # every defect on its own: a listed one must not hide another
             bad += 1
             chk.fail(f"event stream not well formed: {defect}", sc, region=region(sc["workers"], sc["maxf"], defect))
     chk.stages["forced_schedules"] = {"runs": len(records), "streams_not_wf": bad}
 
     # the consumer's exit condition, sub-step by sub-step
     def judge(sc, r):
-        d = U.stream_wf(r["events"], False)
-        return None if d is None else f"event stream not well formed (exit-condition race search): {d}"
+        ds = [d for d in U.stream_defects(r["events"], False) if region(sc.get("workers", 1), sc.get("maxf"), d) is None]
+        return None if not ds else f"event stream not well formed (exit-condition race search): {ds[0]}"
 
     chk.stages["exit_condition_race_search"] = U.race_search(chk, (9 if quick else 60) * (3 if chk.broken else 1), judge)
 
@@ -104,10 +103,9 @@ def run(chk: core.Check):
                             on_event=on_event, phases=["probing", "examples", "coverage", "fuzzing", "stateful"])
         chk.seen({"free": cfg}, True)
         interrupted = stop_at is not None and stop_at < len(evs)
-        defect = U.stream_wf(evs, interrupted or maxf is not None and any(event_kind(e) == "Interrupted" for e in evs))
-        if defect is not None and maxf is not None and "not every phase" in defect:
-            defect = None  # later phases are still opened and closed as skipped; checked by C12
-        if defect is not None:
+        for defect in U.stream_defects(evs, interrupted or maxf is not None and any(event_kind(e) == "Interrupted" for e in evs)):
+            if maxf is not None and "not every phase" in defect:
+                continue  # later phases are still opened and closed as skipped; checked by C12
             bad += 1
             chk.fail(f"event stream not well formed (free run): {defect}", cfg, region=region(workers, maxf, defect))
     chk.stages["free_runs"] = {"runs": n_free, "streams_not_wf": bad}
